@@ -183,6 +183,21 @@ pub fn nested_task(table: &[Ops], n: &Nest) -> Option<String> {
     }
 }
 
+/// The second task of the history executed on its own, outside any seam call: `Some` if it fails there
+/// too (then the failure is an ordinary encode / decode violation, not one of interference).
+fn standalone_failure(table: &[Ops], t: &Trace) -> Option<(&'static str, String)> {
+    let n = t.input.nest.as_ref()?;
+    let m = nested_task(table, n)?;
+    let id = if m.contains(" wrote ") || m.contains("encoding ") {
+        "E1"
+    } else if m.contains(" bytes to ") {
+        "D3"
+    } else {
+        "D1"
+    };
+    Some((id, m))
+}
+
 // ------------------------------------------------------------------ write phase
 
 pub struct Written {
@@ -272,6 +287,11 @@ pub fn write_phase(table: &[Ops], t: &Trace, record: bool) -> Result<Written, Vi
         let nest_fired = out.nest_fired;
         drop(out);
         if let Some(m) = nest_fail {
+            // does the second task fail on its own as well? then the interleaving has nothing to do with it
+            if let Some((id, m2)) = standalone_failure(table, t) {
+                log.ev(ev::CHECK_FAIL, check_no(id), i as u64);
+                return Err(viol(id, i, &f0, format!("(met as the second task of this history, but independent of the interleaving) {}", m2)));
+            }
             log.ev(ev::CHECK_FAIL, check_no("R1"), i as u64);
             return Err(viol("R1", i, &f0, format!("while {} {:?} was being written via {:?} (suspended in an Output call), a second task ran and went wrong: {}", ops.name, r.shape, r.writer, m)));
         }
@@ -867,6 +887,11 @@ pub fn read_pass(table: &[Ops], t: &Trace, w: &Written, fault: &Fault, record: b
         let out = run_reader(rops.dec, r.shape, reader, &mut inp);
         stats.records_read += 1;
         if let Some(m) = inp.nest_fail.take() {
+            if let Some((id, m2)) = standalone_failure(table, t) {
+                violation = Some(viol(id, i, fault, format!("(met as the second task of this history, but independent of the interleaving) {}", m2)));
+                inp.log.ev(ev::REC_READ, i as u64, (out.class() << 32) | inp.pos as u64);
+                break;
+            }
             // R1: the second task, run while this decode was suspended inside Input::read, went wrong
             violation = Some(viol("R1", i, fault, format!("while record {} ({} {:?} via {:?}) was being read (suspended in an Input call), a second task ran and went wrong: {}", i, rops.name, r.shape, reader, m)));
             inp.log.ev(ev::REC_READ, i as u64, (out.class() << 32) | inp.pos as u64);
